@@ -189,6 +189,9 @@ Proof.
     + exact (IH _ Hs').
 Qed.
 
+(* result and delivered bytes of a run (what save_to's caller observes) *)
+Definition rd {A B C} (x : A * B * C) : A * B := (fst (fst x), snd (fst x)).
+
 (* ------------------------------------------------------------------------------------------ *)
 (* 2. the pipeline, for any sound inner write_all                                              *)
 (* ------------------------------------------------------------------------------------------ *)
@@ -263,6 +266,19 @@ Section Run.
       destruct (run_cw wa b c2) as [[r3 d3] c3]. rewrite app_assoc. reflexivity.
   Qed.
 End Run.
+
+(* the incremental save path (first buffer written around CountingWrite, counted afterwards) is
+   observably the plain pipeline with the previous bytes as first call: same result, same
+   delivered bytes, and the same counter whenever the result is Ok *)
+Theorem run_inc_is_run wa prev calls s :
+  rd (run_inc wa prev calls s) = rd (run wa (prev :: calls) s) /\
+  (fst (fst (run_inc wa prev calls s)) = WOk -> run_inc wa prev calls s = run wa (prev :: calls) s).
+Proof.
+  unfold run_inc, run, rd. cbn [run_cw]. unfold cw_write_all_after, cw_write_all. cbn [cw_inner cw_count].
+  destruct (wa s prev) as [[r1 d1] s1]. destruct r1 as [|e1]; cbn [fst snd].
+  - destruct (run_cw wa calls _) as [[r2 d2] c2]. cbn [fst snd]. auto.
+  - split; [reflexivity | discriminate].
+Qed.
 
 (* ------------------------------------------------------------------------------------------ *)
 (* 3. call-driven scripts: the theorems of the property                                        *)
@@ -419,8 +435,6 @@ Qed.
 (* ------------------------------------------------------------------------------------------ *)
 (* 4. the positional reading: independent of call boundaries even when the sink fails           *)
 (* ------------------------------------------------------------------------------------------ *)
-Definition rd {A B C} (x : A * B * C) : A * B := (fst (fst x), snd (fst x)).
-
 Lemma qwrite_all_app s : forall a b,
   qwrite_all s (a ++ b) =
   let '(r, d, s') := qwrite_all s a in
